@@ -241,11 +241,13 @@ def run(tier, seed):
     add(PLAY_HEAD % ("", "bad?; ok; bad?"), [], False, "only tolerated actions fail, around a succeeding one", {"site": "tolerated-action"})
     add(PLAY_HEAD % ("  cleanup false", "ok"), [], True, "the initial cleanup fails", {"site": "initial-cleanup"})
     add(PLAY_HEAD % ("  cleanup if [ -e ran ]; then exit 1; fi; touch ran", "ok"), [], True, "the final cleanup fails", {"site": "final-cleanup"})
-    add(PLAY_HEAD % ("  spotlight exit 3", "ok"), [], True, "the spotlight fails", {"site": "spotlight"})
+    # (the play lasts long enough for the failure to be noticed while it runs, also on a loaded machine: a failure that
+    # only becomes known once the prompter has ended the spotlights is dropped — the known finding below)
+    add(PLAY_HEAD % ("  :wait sleep 1.5\n  spotlight exit 3", "wait"), [], True, "the spotlight fails", {"site": "spotlight"})
     # the spotlight's shell fails at once while a child it left in the background holds its output: the runner only learns
     # the exit status when the output closes, i.e. when the play is over, and the spotlight manager drops it then (known
     # finding: the failure goes unreported)
-    add(PLAY_HEAD % ("  spotlight sleep 2.0911 & exit 3", "ok"), [], True, "the spotlight's shell fails while its background child holds the output",
+    add(PLAY_HEAD % ("  :wait sleep 1.5\n  spotlight sleep 2.0911 & exit 3", "wait"), [], True, "the spotlight's shell fails while its background child holds the output",
         {"site": "spotlight", "shape": "shell failed, child holds the output"})
     add(PLAY_HEAD % ("", "ok"), [], False, "nothing goes wrong", {"site": "none"})
     add(PLAY_HEAD % ("", "ok") + "audience\n  bob audits throughout\n  bob expects always: t < 'a'\nend\n", [], True,
